@@ -133,7 +133,7 @@ def theorem_spans(src, prop):
             spans.append((name, i, j))
     return spans
 
-def audit(prop, extra_modules=()):
+def audit(prop, extra_modules=(), tier='quick'):
     """Build Props.<prop>, then `#print axioms` every property theorem.
     returns dict(obligations=[names], discharged=[names], failed={name: reason}, log=str, axioms={name:[...]})"""
     names, src = theorem_names(prop)
@@ -183,6 +183,12 @@ def audit(prop, extra_modules=()):
         for b in bad:
             res['failed']['source:' + b] = 'forbidden construct'
     res['build_ok'] = ok
+    if ok and tier == 'thorough':
+        # independent re-check of the compiled .olean files (Lean's external checker replays every declaration in the kernel)
+        rc2, out2 = run(['lake', 'env', 'leanchecker', 'DadiVerif.Props.' + prop], cwd=LEAN, timeout=3000)
+        res['leanchecker'] = 'ok' if rc2 == 0 else out2[-1500:]
+        if rc2 != 0:
+            res['failed']['leanchecker'] = 'leanchecker rejected the compiled module'
     return res
 
 DRIVER_TMPL = """import {imports}
@@ -401,7 +407,7 @@ def finish(chk):
             obligations=max(obligations, 0), discharged=discharged,
             checker_cmd='cd /verif/lean && lake build DadiVerif.Props.%s && lake env lean DadiVerif/Audit/%s.lean  (#print axioms on every theorem)' % (chk.prop, chk.prop),
             trusted_base=TRUSTED_BASE + chk.assumptions,
-            theorems=a['obligations'], axioms=a['axioms'], undischarged=a['failed'],
+            theorems=a['obligations'], axioms=a['axioms'], undischarged=a['failed'], leanchecker=a.get('leanchecker', 'not run (quick tier)'),
             translation=dict((g, 'ok' if e is None else e) for g, e in chk.translate.items()),
             evaluations=chk.k_cases + chk.l3_evals,
             distinct_nontrivial=len(chk.l3_distinct),
